@@ -6,7 +6,15 @@ checks the laws ErrorIff / NodeLaw / DerivLaw / HatLaw and exports for each scen
 (error or f(x)), the exact gradient and (multilinear tables) the slinear hat weights.  Every exported scenario is
 executed on the real InterpND (each table method that provably reproduces the class, every method at nodes, the
 fixed-dimension variants against the general ones, single-point and vectorised calls) and, for a rotating subset,
-through MetaModelStructuredComp in a Problem.
+through MetaModelStructuredComp in a Problem and (in-bounds points, the full grid as training points) through
+MetaModelSemiStructuredComp.  On evenly spaced axes Akima's interpolant also has to reproduce tensor quadratics inside
+the grid (Interp.tla Uniform / AkQuadLaw).
+
+Histories (spec/mech/InterpHist.tla): every sequence of two queries (thorough: plus a sample of three) over
+{interpolate, interpolate with derivative} x {point A, second point B = a node, batches [A,B], [B,A]} is replayed on ONE
+InterpND per method for a reduced scenario base; the law ReturnsRequested (every query returns the quantities of its
+own argument) is model checked on the reference cache discipline, and bound as: the value returned in a history equals
+the value a fresh object returns (and the exact one where the method reproduces the table / at the node B).
 
 This module also holds what C16 (drivers/c16.py) shares: the TLC configuration, the scenario decoding and the
 independent fractions.Fraction reference that cross-checks the spec's numbers (a disagreement is a machinery error)."""
@@ -841,7 +849,7 @@ def run(ctx):
     hcfg = write_cfg(ctx, 'InterpHistBase.cfg', dims=[1, 2, 3], npoly=1, all1d=False, nrep=3 if quick else 5, nrep3=1,
                      full2d=False, interior=True, exset=[False], histpos=True, bkind='node')
     _, hexports = run_tlc(ctx, hcfg)
-    hists = run_hist_tlc(ctx, ['val', 'valD'], False, 2)
+    hists = run_hist_tlc(ctx, ['val', 'valD'], False, 2, refute=False)      # C16 runs the refutations
     if not quick:
         h3 = run_hist_tlc(ctx, ['val', 'valD'], False, 3, refute=False)
         random.Random(ctx.seed).shuffle(h3)
@@ -861,14 +869,18 @@ def run(ctx):
         [e for e in exports if e['s']['dim'] == 2 and e['s']['cls'] == 'cub' and e['o']['interior']][:1]
     for e in pick:
         ctx.sample({'scenario': e['s'], 'spec_outcome': e['o']})
-    ctx.rule = ('every scenario of Interp.tla: %s; x {multilinear, tensor-quadratic, tensor-cubic} integer table (%d per class) '
+    ctx.rule = ('(1) every scenario of Interp.tla: %s; x {multilinear, tensor-quadratic, tensor-cubic} integer table (%d per class) '
                 'x query {every node, cell midpoints, quarter points, both boundaries, 1/R outside each boundary} per axis '
                 'x extrapolate; each executed on InterpND with every table method that provably reproduces the class '
                 '(all methods at nodes), single-point, vectorised, fixed-dimension vs general, and a seeded 1/%d of the '
-                '(grid, table) groups through MetaModelStructuredComp; non-trivial = distinct scenarios whose point is not '
-                'a strictly interior node' %
+                '(grid, table) groups through MetaModelStructuredComp, 1/%d (and every evenly spaced 1-D grid) through '
+                'MetaModelSemiStructuredComp; non-trivial = distinct scenarios whose point is not a strictly interior '
+                'node.  (2) query histories: every history of InterpHist.tla (%d per scenario) x %d base scenarios '
+                '(dimension 1-3, 2 interior positions per axis, second point B = the second node of every axis) on '
+                'every applicable method' %
                 ('1-D: all 336 strictly increasing grids of 3-5 points in -4..4; 2-D: all pairs of %d representative grids'
-                 % (5 if quick else 8) + ('' if quick else '; 3-D: 3 grids'), 1 if quick else 2, 5 if quick else 6))
+                 % (5 if quick else 8) + ('' if quick else '; 3-D: 3 grids'), 1 if quick else 2, 5 if quick else 6,
+                 8 if quick else 6, len(hists), len(hexports)))
     ctx.assumptions = [
         'tables are integer polynomials of the class each method provably reproduces (akima, cubic, slinear, '
         'scipy_slinear: multilinear; lagrange2: tensor quadratic; lagrange3, scipy_cubic/quintic on >=4 points per axis: '
@@ -878,4 +890,11 @@ def run(ctx):
         'method rejects them itself (counted in coverage.counters)',
         'the out-of-bounds error is OutOfBoundsError for InterpND.interpolate and AnalysisError for MetaModelStructuredComp',
         'float comparison: |obs - exact| <= 1e-9 + 1e-9*|exact| + 1e-11*max|table| (round-off of the operands)',
+        'akima additionally has to reproduce tensor quadratics at in-bounds points of grids that are evenly spaced on '
+        'every axis (the end continuation of the slopes extends the arithmetic progression of a parabola\'s slopes)',
+        'MetaModelSemiStructuredComp: full grid as training points, extrapolate=True, in-bounds points only, methods '
+        'slinear / lagrange2 / lagrange3 / akima on grids where every axis has the points the method needs (else the '
+        'component reduces the order)',
+        'histories: values in a history are compared with those of a fresh object at 1e-12*(1+max|table|); a query a '
+        'fresh object refuses is not judged',
     ]
